@@ -133,6 +133,16 @@ crate::harnesses! { REG;
             && two_adic::<bn384_small_two_adicity::Fr>() && two_adic::<ark_bls12_381::Fq>();
         assert!(ok);
     }
+    /// quick required | ground: the SWU-isogenous helper curves of test-curves bls12_381 (g1_swu_iso, g2_swu_iso): generator on the curve, COFACTOR * COFACTOR_INV = 1 (mod r), ZETA is a quadratic non-residue candidate with a*b != 0
+    #[unwind(70)]
+    fn c16_swu_iso_curves() {
+        use ark_test_curves::bls12_381::{g1_swu_iso, g2_swu_iso};
+        crate::cover!(true);
+        let ok = sw_curve::<g1_swu_iso::SwuIsoConfig>() && sw_curve::<g2_swu_iso::SwuIsoConfig>()
+            && !<g1_swu_iso::SwuIsoConfig as SWCurveConfig>::COEFF_A.is_zero() && !<g1_swu_iso::SwuIsoConfig as SWCurveConfig>::COEFF_B.is_zero()
+            && !<g2_swu_iso::SwuIsoConfig as SWCurveConfig>::COEFF_A.is_zero() && !<g2_swu_iso::SwuIsoConfig as SWCurveConfig>::COEFF_B.is_zero();
+        assert!(ok);
+    }
     /// quick required | ground: curve generators lie on their curve and COFACTOR * COFACTOR_INV = 1 (mod r): test-curves bls12_381 G1/G2, secp256k1, bn384 G1, ed_on_bls12_381; curves/bls12_381 G1/G2
     #[unwind(70)]
     fn c16_generators_cofactors() {
